@@ -134,6 +134,15 @@ func (h *histRun) val(code int) any {
 		v := stk.Cond("k", stk.Eq, stk.Basic().Push("held")).SetID(fmt.Sprintf("c%d", code))
 		h.nested[code] = v
 		return v
+	case code == typedNilCode:
+		return (*int)(nil) // a nil pointer with a type: a value like any other, not the nil slice
+	case code == deepPtrCode:
+		if v, ok := h.nested[code]; ok {
+			return v
+		}
+		v := ptrChain(7, 9) // nine pointer levels in front of an int: no Stack, however deep
+		h.nested[code] = v
+		return v
 	case code > 0:
 		return code
 	}
@@ -165,6 +174,15 @@ func (h *histRun) code(v any) (string, any) {
 	switch tv := v.(type) {
 	case int:
 		return fmt.Sprintf("(SVal (EV %s))", coqZ(tv)), tv
+	case *int:
+		if tv == nil {
+			return fmt.Sprintf("(SVal (EV %d))", typedNilCode), "(*int)(nil)"
+		}
+	}
+	if b, d := unchain(v); d == 9 {
+		if _, isInt := b.(int); isInt {
+			return fmt.Sprintf("(SVal (EV %d))", deepPtrCode), "*********int"
+		}
 	}
 	if s, ok := stk.ConvertStack(v); ok {
 		var n int
@@ -222,6 +240,10 @@ func (h *histRun) policy(p int) stk.PushPolicy {
 				c = 0
 			case int:
 				c = tv
+			case *int:
+				c = typedNilCode
+			case *********int:
+				c = deepPtrCode
 			case stk.Condition:
 				fmt.Sscanf(tv.ID(), "c%d", &c)
 			default:
@@ -553,10 +575,18 @@ func opTerm(o HOp) string {
 // ---------------------------------------------------------------------------
 // generators
 
+// typedNilCode: the element code of (*int)(nil); deepPtrCode: of a *********int
+const typedNilCode = 4999
+const deepPtrCode = 4998
+
 func randVal(r *Rng, stacks bool) int {
 	switch x := r.Intn(100); {
-	case x < 15:
+	case x < 13:
 		return 0
+	case x < 14:
+		return typedNilCode
+	case x < 15:
+		return deepPtrCode
 	case stacks && x < 27:
 		return -(1 + r.Intn(8))
 	case stacks && x < 33:
@@ -801,7 +831,7 @@ func genIndexSweep(ctx *Ctx, emit func(any, string)) {
 // primitives, with the no-nesting option switched between batches
 func genNesting(ctx *Ctx, emit func(any, string)) {
 	// exhaustive: option state x batch of length <= 3 over {int, nil, native, alias, ptr-alias}
-	alpha := []int{1, 0, -1, -2, -4, condCodeBase}
+	alpha := []int{1, 0, -1, -2, -4, condCodeBase, deepPtrCode}
 	var batches [][]int
 	var rec func(p []int, d int)
 	rec = func(p []int, d int) {
